@@ -117,3 +117,9 @@ pub enum Sequence<'data> {
     /// These literals will just be copied at the end of the sequence execution by the decoder
     Literals { literals: &'data [u8] },
 }
+
+/// Verification hooks: pass-through wrappers of the block encoder's private helpers.
+#[cfg(zstd_rs_verif)]
+pub(crate) mod verif {
+    pub use super::blocks::verif::*;
+}
